@@ -41,20 +41,59 @@ pub struct USpell {
     pub slash: bool,
     /// Join factors with `*` (true) or a blank (false).
     pub star: bool,
+    /// 0 = none; otherwise a factor that cancels inside the spelling is appended as written
+    /// (`x/x^1`, `x^1/x`, `x^2/x^2`, `x^-1 x`, `x^1 x^-1`, x an unprefixed base unit not used by the
+    /// spelling): the unit expression denotes the same unit, whatever explicit exponents it carries
+    pub noise: u16,
+    /// Write exponents with `**` (the lexer's other spelling of `^`).
+    pub starstar: bool,
 }
 
 impl USpell {
     pub fn render(&self) -> String {
         let join = if self.star { "*" } else { " " };
-        let f = |w: &Word, p: i32| if p == 1 { w.text.clone() } else { format!("{}^{}", w.text, p) };
+        let pw = if self.starstar { "**" } else { "^" };
+        let f = |w: &Word, p: i32| if p == 1 { w.text.clone() } else { format!("{}{}{}", w.text, pw, p) };
         let pos: Vec<String> = self.factors.iter().filter(|(_, p)| *p > 0).map(|(w, p)| f(w, *p)).collect();
         let neg: Vec<&(Word, i32)> = self.factors.iter().filter(|(_, p)| *p < 0).collect();
-        if self.slash && !pos.is_empty() && !neg.is_empty() {
+        let body = if self.slash && !pos.is_empty() && !neg.is_empty() {
             let negs: Vec<String> = neg.iter().map(|(w, p)| f(w, -*p)).collect();
             format!("{}/{}", pos.join(join), negs.join(join))
         } else {
             self.factors.iter().map(|(w, p)| f(w, *p)).collect::<Vec<_>>().join(join)
+        };
+        match self.noise_text(join) {
+            Some(n) if !body.is_empty() => format!("{}{}{}", body, join, n),
+            _ => body,
         }
+    }
+    /// The cancelling factor appended by `noise` (None when every candidate unit is used by the spelling).
+    pub fn noise_text(&self, join: &str) -> Option<String> {
+        if self.noise == 0 {
+            return None;
+        }
+        const SYMS: [(&str, usize); 7] = [("m", 1), ("s", 2), ("A", 3), ("K", 4), ("mol", 5), ("cd", 6), ("B", 7)];
+        let v = crate::units_ref::vocab();
+        let k = self.noise as usize;
+        for t in 0..SYMS.len() {
+            let (x, di) = SYMS[(k / 5 + t) % SYMS.len()];
+            // the candidate must not occur in the spelling at all (a second occurrence with another prefix is refused by design)
+            let used = self.factors.iter().any(|(w, _)| {
+                let u = &v.units[w.unit];
+                u.is_base && u.dim[di] != 0
+            });
+            if used {
+                continue;
+            }
+            return Some(match k % 5 {
+                0 => format!("{x}/{x}^1"),
+                1 => format!("{x}^1/{x}"),
+                2 => format!("{x}^2/{x}^2"),
+                3 => format!("{x}^-1{join}{x}"),
+                _ => format!("{x}^1{join}{x}^-1"),
+            });
+        }
+        None
     }
     pub fn dim(&self) -> Dim {
         let v = crate::units_ref::vocab();
